@@ -8,6 +8,7 @@ import (
 	"regexp"
 	"runtime"
 	"sort"
+	"strconv"
 	"strings"
 	"time"
 
@@ -71,6 +72,7 @@ func (x *Exec) loadRepo(repo string) error {
 			x.cs.Funcs[c.PkgPath+"::"+c.Key] = c
 		}
 	}
+	x.preregister()
 	x.registerExternSpecs()
 	return x.registerSpecs()
 }
@@ -93,6 +95,8 @@ func main() {
 	verbose := flag.Bool("v", false, "verbose")
 	known := flag.String("known", "", "known_findings.json")
 	replayDir := flag.String("replay", "", "directory for replay files")
+	localsFile := flag.String("locals", "", "locals.baseline.json: the variable names the contracts were written against (default: next to the binary's parent directory)")
+	emitLocals := flag.String("emit-locals", "", "write the current variable declarations of all functions under contract to this file and exit")
 	flag.Parse()
 	t0 := time.Now()
 	x := NewExec()
@@ -100,6 +104,19 @@ func main() {
 		fmt.Fprintln(os.Stderr, "govc: load:", err)
 		os.Exit(2)
 	}
+	if *emitLocals != "" {
+		if err := x.emitLocals(*emitLocals); err != nil {
+			fmt.Fprintln(os.Stderr, "govc:", err)
+			os.Exit(2)
+		}
+		return
+	}
+	if *localsFile == "" {
+		if exe, err := os.Executable(); err == nil {
+			*localsFile = filepath.Join(filepath.Dir(filepath.Dir(exe)), "locals.baseline.json")
+		}
+	}
+	x.applyRenames(*localsFile)
 	tLoad := time.Since(t0)
 	if *prop != "" {
 		os.Exit(x.runProperty(*prop, *mapFile, *tier, *evDir, *dump, *known, *replayDir, *verbose, t0))
@@ -137,9 +154,13 @@ func main() {
 	opts := defaultOpts(*tier)
 	opts.DumpDir = *dump
 	rs := x.solveAll(x.obls, opts)
-	if os.Getenv("GOVC_SLOW") != "" {
+	if sl := os.Getenv("GOVC_SLOW"); sl != "" {
+		thr := int64(2500)
+		if n, err := strconv.ParseInt(sl, 10, 64); err == nil && n > 1 {
+			thr = n
+		}
 		for _, r := range rs {
-			if r.Ms > 2500 && r.Obl.Kind != "cover" {
+			if int64(r.Ms) > thr && r.Obl.Kind != "cover" {
 				fmt.Printf("slow %6dms %-8s %-12s %s path=%v\n", r.Ms, r.Status, r.Backend, r.Obl.FullName(), lastN(r.Obl.Path, 6))
 			}
 		}
@@ -176,7 +197,7 @@ func main() {
 }
 
 func defaultOpts(tier string) SolveOpts {
-	o := SolveOpts{Tier: tier, Workers: runtime.NumCPU(), FirstMs: 3000, SecondMs: 10000}
+	o := SolveOpts{Tier: tier, Workers: runtime.NumCPU(), FirstMs: 3000, SecondMs: 15000}
 	if tier == "thorough" {
 		o.FirstMs, o.SecondMs = 10000, 60000
 	}
@@ -198,26 +219,49 @@ func firstLines(s string, n int) string {
 	return strings.Join(ls, "\n")
 }
 
-// generate runs the VC generator over every function selected by want (functions with contracts, and lemmas)
+// generate produces the obligations of the functions selected by want. The generator always walks *every* function
+// under contract, twice: the first walk only fills the registry (heap arrays, sorts, literals, uninterpreted functions are
+// registered on first use), the second produces the obligations against the complete registry. The text of a query is
+// thereby a function of the program and of the function it belongs to, not of the selection or of the order of the walk;
+// and a callback that may change "every array" changes every array the program uses, not only those seen so far.
 func (x *Exec) generate(want func(name string) bool) []*FuncReport {
+	all := func(string) bool { return true }
+	x.generate1(all, all)
+	x.obls, x.trusted = nil, map[string]bool{}
+	return x.generate1(all, want)
+}
+
+// generate1 walks the functions selected by walk and keeps the obligations, reports and trusted-base items of those
+// selected by want.
+func (x *Exec) generate1(walk, keep func(name string) bool) []*FuncReport {
 	var reports []*FuncReport
+	want := walk
+	var mark func() func(name string)
+	mark = func() func(name string) {
+		nob, nrep := len(x.obls), len(reports)
+		saved := map[string]bool{}
+		for k, v := range x.trusted {
+			saved[k] = v
+		}
+		return func(name string) {
+			if !keep(name) {
+				x.obls, reports, x.trusted = x.obls[:nob], reports[:nrep], saved
+			}
+		}
+	}
 	keys := x.cs.Keys()
 	for _, k := range keys {
 		con := x.cs.Funcs[k]
 		fn := x.allFuncs[k]
+		name := shortPkg(con.PkgPath) + "." + con.Key
 		if fn == nil {
-			// interface method contract or a contract for a function that no longer exists
-			if x.isIfaceContract(con) || strings.HasPrefix(con.Key, "callback:") {
-				continue
-			}
-			name := shortPkg(con.PkgPath) + "." + con.Key
-			if want(name) {
-				x.obls = append(x.obls, &Obligation{Func: name, Kind: "subset", Name: "function-exists", Goal: "false", Src: "contract refers to a function that does not exist: " + k})
-				reports = append(reports, &FuncReport{Key: name, Err: "no such function", Obls: 1})
+			// interface method contract, or a contract for a function that no longer exists (removed or inlined by a
+			// refactoring): nothing to verify; the callers are verified against whatever they call now
+			if !x.isIfaceContract(con) && !strings.HasPrefix(con.Key, "callback:") && keep(name) {
+				reports = append(reports, &FuncReport{Key: name, Err: "contract for a function that does not exist (skipped)"})
 			}
 			continue
 		}
-		name := shortPkg(con.PkgPath) + "." + con.Key
 		if !want(name) {
 			continue
 		}
@@ -225,17 +269,21 @@ func (x *Exec) generate(want func(name string) bool) []*FuncReport {
 			continue // closures: loop invariants only, used while inlining
 		}
 		if con.Trusted {
-			x.trusted["trusted contract: "+name] = true
-			reports = append(reports, &FuncReport{Key: name, Trusted: true})
+			if keep(name) {
+				x.trusted["trusted contract: "+name] = true
+				reports = append(reports, &FuncReport{Key: name, Trusted: true})
+			}
 			continue
 		}
 		if con.Inline && len(con.Ensures) == 0 && len(con.Requires) == 0 {
 			continue
 		}
+		done := mark()
 		reports = append(reports, x.verifyFunction(fn, con, nil, nil))
 		for _, ic := range x.refinementTargets(fn) {
 			reports = append(reports, x.verifyFunction(fn, con, ic, fn.Signature.Recv().Type()))
 		}
+		done(name)
 	}
 	// methods without own contract that must refine an interface contract
 	for _, k := range sortedFuncKeys(x.allFuncs) {
@@ -247,16 +295,20 @@ func (x *Exec) generate(want func(name string) bool) []*FuncReport {
 		if !want(name) || helperPkg(k[:strings.Index(k, "::")]) {
 			continue
 		}
+		done := mark()
 		for _, ic := range x.refinementTargets(fn) {
 			reports = append(reports, x.verifyFunction(fn, nil, ic, fn.Signature.Recv().Type()))
 		}
+		done(name)
 	}
 	for _, l := range x.cs.Lemmas {
 		if want("lemma." + l.Name) {
+			done := mark()
 			reports = append(reports, x.verifyLemma(l))
+			done("lemma." + l.Name)
 		}
 	}
-	if want("sweep.frame") {
+	if keep("sweep.frame") {
 		n := len(x.obls)
 		x.frameSweep()
 		reports = append(reports, &FuncReport{Key: "sweep.frame", Obls: len(x.obls) - n})
@@ -276,4 +328,32 @@ func shortPkg(p string) string {
 // helperPkg: test-support and drawing packages of the repository; their types are not part of the library proper
 func helperPkg(path string) bool {
 	return strings.HasSuffix(path, "test") || strings.HasSuffix(path, "dot")
+}
+
+// preregister numbers the dynamic types and the function values of the program in a fixed order (by name), before any
+// contract is translated, so that the numbers in queries do not depend on the order of verification.
+func (x *Exec) preregister() {
+	for _, b := range []types.BasicKind{types.Bool, types.Int, types.Int64, types.Uint8, types.Int32, types.Float64, types.String} {
+		x.reg.Tag(types.Typ[b])
+	}
+	var paths []string
+	for p := range x.spkgs {
+		paths = append(paths, p)
+	}
+	sort.Strings(paths)
+	for _, p := range paths {
+		sc := x.spkgs[p].Pkg.Scope()
+		for _, n := range sc.Names() { // sorted
+			if tn, ok := sc.Lookup(n).(*types.TypeName); ok && !tn.IsAlias() {
+				if _, isIface := tn.Type().Underlying().(*types.Interface); isIface {
+					continue
+				}
+				x.reg.Tag(tn.Type())
+				x.reg.Tag(types.NewPointer(tn.Type()))
+			}
+		}
+	}
+	for _, k := range sortedFuncKeys(x.allFuncs) {
+		x.funcTerm(x.allFuncs[k])
+	}
 }
